@@ -636,11 +636,64 @@ fn stage_semantic_replica(st: &mut Stats, w: &crate::bftsim::World) {
     }
 }
 
+/// (c4) Block numbers a peer controls through the get_block RPC and through blocks it serves:
+/// `EngineManager::get_block(n)` and `queue_block(pre-genesis block n)` for extreme n, on an empty
+/// store and on a store holding two blocks, for genesis first blocks 0, 5 and u64::MAX.
+fn stage_semantic_engine(st: &mut Stats, seed: u64) {
+    use zksync_consensus_engine::EngineManager;
+    for first_block in [0u64, 5, u64::MAX] {
+        let c = util::committee_with(seed, &[1, 1, 1], 0, first_block, Default::default());
+        let w = crate::bftsim::World { c, proposals: vec![Payload(vec![0x58])], invalid_payload: Payload(vec![0xBA]) };
+        for &n in &B64 {
+            for op in ["get_block", "queue_block(pre-genesis)"] {
+                let desc = format!("genesis first block {first_block}: {op} for block number {n}");
+                let eng = crate::bftsim::SimEngine::new_empty(&w);
+                stage_case(st, "semantic_engine", desc, json!({"harness":"c10-semantic","part":"engine","first_block":first_block,"n":n,"op":op}), 4 << 20, move || {
+                    on_rt(|ctx, idle, _clock| {
+                        Box::pin(async move {
+                            let (mgr, runner) = EngineManager::new(ctx, Box::new(eng), time::Duration::seconds(1)).await.map_err(|e| format!("{e:?}"))?;
+                            let (mgr, idle) = (&mgr, &idle);
+                            let r: anyhow::Result<Result<(), String>> = async move {
+                                scope::run!(ctx, |ctx, s| async move {
+                                    s.spawn_bg(async move {
+                                        let _ = runner.run(ctx).await;
+                                        Ok(())
+                                    });
+                                    let res: std::sync::Arc<std::sync::Mutex<Option<Result<(), String>>>> = Default::default();
+                                    let res2 = res.clone();
+                                    s.spawn_bg(async move {
+                                        let r = if op == "get_block" {
+                                            mgr.get_block(ctx, BlockNumber(n)).await.map(|_| ()).map_err(|e| format!("{e:?}"))
+                                        } else {
+                                            let b = validator::Block::PreGenesis(validator::PreGenesisBlock { number: BlockNumber(n), payload: Payload(vec![1]), justification: validator::Justification(vec![]) });
+                                            mgr.queue_block(ctx, b).await.map_err(|e| format!("{e:?}"))
+                                        };
+                                        *res2.lock().unwrap() = Some(r);
+                                        Ok(())
+                                    });
+                                    // a call that waits for predecessors never returns: quiescence ends the case
+                                    idle.settle().await;
+                                    let out = res.lock().unwrap().clone().unwrap_or(Err("waits for predecessor blocks".into()));
+                                    Ok(out)
+                                })
+                                .await
+                            }
+                            .await;
+                            r.map_err(|e| format!("{e:#}"))?
+                        })
+                    })
+                });
+            }
+        }
+    }
+}
+
 fn stage_semantic(st: &mut Stats, seed: u64) {
     let w = semantic_world(seed);
     let _ = stage_semantic_fetch(st, &w);
     stage_semantic_addrs(st, &w);
     stage_semantic_replica(st, &w);
+    stage_semantic_engine(st, seed);
 }
 
 pub fn run(args: &Args) -> Report {
